@@ -1,2 +1,3 @@
 //! reference models
+pub mod http;
 pub mod state;
